@@ -88,7 +88,7 @@ BOUNDS = {
     ],
     "thorough": [
         {"id": "csv-d4", "depth": 4, "prefix": 2, "vals": ["df1", "df2"], "locs": ["own", "clash"],
-         "module": False, "update_new": [None, "fresh"], "model_level": True},
+         "module": False, "update_new": [None, "fresh"], "model_level": True, "names": ["x"]},
         {"id": "full-d3", "depth": 3, "prefix": 2, "vals": ["df1", "df2", "s1"],
          "locs": ["own", "clash", "alias", "xl", "xlclash", "xlnone"],
          "module": True, "update_new": [None, "fresh", "other"], "model_level": True},
@@ -363,7 +363,7 @@ def applicable(w, op, b):
 
 def alphabet(w, b):
     ops = []
-    slots = [s for s in SLOTS if b["model_level"] or s[1] is not None]
+    slots = slots_of(b)
     for (m, sp, n) in slots:
         for val in b["vals"]:
             for loc in b["locs"]:
@@ -395,8 +395,12 @@ def alphabet(w, b):
     return [op for op in ops if applicable(w, op, b)]
 
 
+def slots_of(b):
+    return [s for s in SLOTS if (b["model_level"] or s[1] is not None) and s[2] in b.get("names", ["x", "y"])]
+
+
 def alphabet_size(b):
-    slots = [s for s in SLOTS if b["model_level"] or s[1] is not None]
+    slots = slots_of(b)
     n = len(slots) * len(b["vals"]) * len(b["locs"]) + len(CLASH_SLOTS) * 2
     n += (len([s for s in slots if s[2] == "x"]) + 1) if b["module"] else 0
     n += len(slots) * (len(b["vals"]) + 1 + (1 if b["module"] else 0))
